@@ -134,6 +134,7 @@ structure Config where
   regRoot : Option Bool
   delViaCollector : Bool
   delRawDestructFirst : Bool
+  delRawClassFirst : Bool -- del_by refuses an object that is not on the heap *before* it runs the destructor (not in the code that exists)
   gcSetOnlyAllocBy : Bool
   roundArray : Bool
   roundList : Bool
@@ -171,6 +172,7 @@ def Config.current : Config :=
     regStandard := CelloGen.Hdr.regStandard, regRaw := CelloGen.Hdr.regRaw, regRoot := CelloGen.Hdr.regRoot,
     delViaCollector := CelloGen.Hdr.delStandardViaCollector,
     delRawDestructFirst := CelloGen.Hdr.delRawDestructThenDealloc,
+    delRawClassFirst := CelloGen.Hdr.delRawClassCheckFirst,
     gcSetOnlyAllocBy := CelloGen.Hdr.gcSetSites == ["alloc_by"],
     roundArray := CelloGen.Hdr.arrayRoundsSize, roundList := CelloGen.Hdr.listRoundsSize,
     roundTable := CelloGen.Hdr.tableRoundsSize, roundTree := CelloGen.Hdr.treeRoundsSize,
@@ -265,7 +267,20 @@ inductive Scalar where
   | str (s : String)
   | strFreed          -- a String whose buffer was freed by its destructor (dangling `val`)
   | raw (w : Int)     -- object of a run-time type: its first word
+  | tup (items : List Nat)   -- an embedded Tuple: the handles of its items (`items` is its own malloc block)
+  | tupFreed          -- an embedded Tuple whose `items` block was freed by Tuple_Del (dangling `items`)
+  | arr (vals : List Int)    -- an embedded Array of Int (its backing store is its own malloc block)
+  | arrFreed (n : Nat)       -- an embedded Array whose backing store was freed by Array_Del (dangling `data`, `nitems` still n ≥ 1)
 deriving DecidableEq, Repr, Inhabited
+
+/-- the value owns a block that its destructor has already freed: every use of it reads released memory -/
+def Scalar.dangling : Scalar → Bool
+  | .strFreed => true | .tupFreed => true | .arrFreed _ => true | _ => false
+
+/-- does the type of the value have a destructor that touches memory?  (String_Del, Tuple_Del, Array_Del; Int and the
+    run-time struct types have none) -/
+def Scalar.hasDestructor : Scalar → Bool
+  | .int _ => false | .raw _ => false | _ => true
 
 /-- an object embedded in a container: header, bytes reserved after it, value -/
 structure Elem where
@@ -337,6 +352,12 @@ def St.usableItem (s : St) (id : Nat) : Bool :=
   (match s.get id with
    | some o => (match o.body with | .box _ => false | _ => true)
    | none => false)
+
+/-- neither a Box nor a Ref (showing such an object follows its pointer) -/
+def St.plainPointee (s : St) (id : Nat) : Bool :=
+  match s.get id with
+  | some o => (match o.body with | .box _ => false | .ref _ => false | _ => true)
+  | none => false
 
 /-- can be given to a Box: usable, not a Type object, not an item of a live Tuple -/
 def St.ownable (s : St) (id : Nat) : Bool :=
@@ -431,6 +452,8 @@ def Scalar.fits (v : Scalar) (t : Ty) : Bool :=
   | .int _, .int => true
   | .str _, .string => true
   | .raw _, .rt _ => true
+  | .tup _, .tuple => true
+  | .arr _, .array => true
   | _, _ => false
 
 def keyLt (a b : Scalar) : Bool :=
@@ -454,6 +477,35 @@ def St.srcScalar (cfg : Config) (s : St) (id : Nat) : Option (Ty × Scalar) :=
     else none
   | none => none
 
+/-- can be an item of a Tuple that is embedded in a container: a live Int or String that is not on the heap (so nothing the
+    embedded Tuple points to is ever released behind its back) and that no live Box owns -/
+def St.fixedItem (cfg : Config) (s : St) (id : Nat) : Bool :=
+  s.usableItem id &&
+  (match s.get id with
+   | some o => o.hdr.alloc != cfg.cHeap &&
+      (match o.body with | .scalar (.int _) => true | .scalar (.str _) => true | _ => false)
+   | none => false)
+
+def allSomeInts : List Elem → Option (List Int)
+  | [] => some []
+  | e :: r => (match e.val, allSomeInts r with | .int v, some l => some (v :: l) | _, _ => none)
+
+/-- the (type, value) of an object that `assign` can copy into a container slot: a scalar, a Tuple whose items are all
+    `fixedItem`s (Tuple_Assign copies the pointers), an Array of Int (Array_Assign copies the elements) -/
+def St.srcValue (cfg : Config) (s : St) (id : Nat) : Option (Ty × Scalar) :=
+  match s.srcScalar cfg id with
+  | some r => some r
+  | none =>
+    match s.get id with
+    | some o =>
+      if o.live then
+        match o.body, typeOf cfg o.hdr with
+        | .tuple items, some .tuple => if items.all (s.fixedItem cfg) then some (.tuple, .tup items) else none
+        | .seq .array .int es, some .array => (allSomeInts es).map (fun vs => (Ty.array, Scalar.arr vs))
+        | _, _ => none
+      else none
+    | none => none
+
 /-! ## dealloc, destruct, del -/
 
 /-- `dealloc` of a whole object (the type has no `dealloc` of its own) -/
@@ -468,7 +520,7 @@ def dealloc (cfg : Config) (s : St) (id : Nat) (o : Obj) : St × Outcome :=
 /-- `dealloc` of an embedded object; the message of the exception shows the object (`%$`) -/
 def deallocElem (cfg : Config) (e : Elem) : Outcome :=
   match assoc e.hdr.alloc cfg.deallocRefused with
-  | some exc => if e.val = .strFreed then .ub else .raised exc
+  | some exc => if e.val.dangling then .ub else .raised exc
   | none => .ub
 
 /-- `destruct` of a whole object: String_Del / Tuple_Del are guarded, the containers free their backing store -/
@@ -484,12 +536,21 @@ def destructBody (cfg : Config) (h : Header) (b : Body) : Body × Outcome :=
   | .map _ _ _ _ => (.destroyed, .ok)
   | _ => (b, .ok)
 
-/-- `destruct` of an embedded object -/
+/-- `destruct` of an embedded object: String_Del and Tuple_Del let class `data` through (the containers destruct their
+    elements that way) and free the block the object owns without clearing the pointer; Array_Del has no guard at all -/
 def destructElem (cfg : Config) (e : Elem) : Elem × Outcome :=
   match e.val with
   | .str _ =>
     if cfg.sDel.classes.contains e.hdr.alloc then (e, .raised cfg.sDel.exc)
     else if e.hdr.alloc = cfg.cHeap || e.hdr.alloc = cfg.cData then ({ e with val := .strFreed }, .ok) else (e, .ub)
+  | .tup _ =>
+    if cfg.tDel.classes.contains e.hdr.alloc then (e, .raised cfg.tDel.exc)
+    else if e.hdr.alloc = cfg.cHeap || e.hdr.alloc = cfg.cData then ({ e with val := .tupFreed }, .ok) else (e, .ub)
+  | .tupFreed => (e, .ub)                       -- `free(t->items)` of a block that is already free
+  | .arr vals =>
+    -- Array_Del: destruct of every element (Int: nothing), `free(a->data)`; an empty Array has no backing store
+    if vals.isEmpty then (e, .ok) else ({ e with val := .arrFreed vals.length }, .ok)
+  | .arrFreed _ => (e, .ub)                     -- `destruct(Array_Item(a, i))` reads the released backing store
   | _ => (e, .ok)
 
 inductive FreeOp where
@@ -573,20 +634,34 @@ def St.listed (s : St) : Nat := s.reg.length + (s.pending.filter Option.isSome).
 
 def fuelFor (s : St) : Nat := s.listed + 2
 
+/-- `destruct(self)` without `dealloc`.  Box_Del: `if (obj) { del(obj); }  Box_Ref(self, NULL);` — the documented way to
+    end the life of what a stack Box (`$(Box, x)`) holds -/
+def destructObj (cfg : Config) (s : St) (id : Nat) (o : Obj) : St × Outcome :=
+  match o.body with
+  | .box (some x) =>
+    if cfg.boxDelDeletes then
+      (match gcRem (finalise (fuelFor s) cfg) cfg s x with
+       | (s1, .ok) => (s1.updBody id (fun _ => .box none), .ok)
+       | r => r)
+    else (s.updBody id (fun _ => .box none), .ok)
+  | _ =>
+    let (b, out) := destructBody cfg o.hdr o.body
+    (s.updBody id (fun _ => b), out)
+
 /-- a freeing operation applied to a whole live object -/
 def freeObj (cfg : Config) (s : St) (f : FreeOp) (id : Nat) (o : Obj) : St × Outcome :=
   match f with
   | .dealloc | .deallocRaw | .deallocRoot => dealloc cfg s id o
-  | .destruct =>
-    let (b, out) := destructBody cfg o.hdr o.body
-    (s.updBody id (fun _ => b), out)
+  | .destruct => destructObj cfg s id o
   | .del | .delRoot =>
     -- rem(current(GC), self): GC_Rem_Ptr ignores a pointer that is neither pending nor registered
     if cfg.delViaCollector then gcRem (finalise (fuelFor s) cfg) cfg s id
     else finalise (fuelFor s) cfg s id
   | .delRaw =>
-    -- dealloc(destruct(self))
-    finalise (fuelFor s) cfg s id
+    -- dealloc(destruct(self)); with the class check first (`delRawClassFirst`, not in the code that exists) an object
+    -- that is not on the heap goes straight to `dealloc`, which refuses it
+    if cfg.delRawClassFirst && o.hdr.alloc != cfg.cHeap then dealloc cfg s id o
+    else finalise (fuelFor s) cfg s id
 
 /-- a freeing operation applied to an embedded object -/
 def freeElem (cfg : Config) (f : FreeOp) (e : Elem) : Elem × Outcome :=
@@ -601,10 +676,12 @@ def freeElem (cfg : Config) (f : FreeOp) (e : Elem) : Elem × Outcome :=
       | .ok => (e1, deallocElem cfg e1)
       | other => (e1, other)
   | .delRaw =>
-    let (e1, out) := destructElem cfg e
-    match out with
-    | .ok => (e1, deallocElem cfg e1)
-    | other => (e1, other)
+    if cfg.delRawClassFirst && e.hdr.alloc != cfg.cHeap then (e, deallocElem cfg e)
+    else
+      let (e1, out) := destructElem cfg e
+      match out with
+      | .ok => (e1, deallocElem cfg e1)
+      | other => (e1, other)
 
 /-! ## guarded in-place operations of String and Tuple -/
 
@@ -748,13 +825,13 @@ def seqOp (cfg : Config) (s : St) (k : SeqKind) (ety : Ty) (es : List Elem) (op 
   let mk (v : Scalar) : Elem := seqElem cfg s k ety v
   match op with
   | .push src =>
-    match s.srcScalar cfg src with
+    match s.srcValue cfg src with
     | some (t, v) => if t = ety then some (.seq k ety (es ++ [mk v]), .ok) else none
     | none => none
   | .pop =>
     if n = 0 then some (b, .raised "IndexOutOfBoundsError") else some (.seq k ety (es.take (n - 1)), .ok)
   | .pushAt src i =>
-    match s.srcScalar cfg src with
+    match s.srcValue cfg src with
     | some (t, v) =>
       if t = ety then
         match k with
@@ -802,7 +879,7 @@ def mapOp (cfg : Config) (s : St) (k : MapKind) (kty vty : Ty) (ents : List (Ele
   let b := Body.map k kty vty ents
   match op with
   | .set key val =>
-    match s.srcScalar cfg key, s.srcScalar cfg val with
+    match s.srcScalar cfg key, s.srcValue cfg val with
     | some (tk, kv), some (tv, vv) =>
       if tk = kty ∧ tv = vty ∧ (kty = .int ∨ kty = .string) then
         if ents.any (fun e => e.1.val == kv) then
@@ -1099,7 +1176,14 @@ def St.tyUsable (s : St) : Ty → Bool
   | .rt k => s.rtLive k
   | .int => true
   | .string => true
+  | .tuple => true
+  | .array => true
   | _ => false
+
+/-- a literal that can be stored: the items of an embedded Tuple are `fixedItem`s, at most six -/
+def St.storable (cfg : Config) (s : St) : Scalar → Bool
+  | .tup items => items.all (s.fixedItem cfg) && items.length ≤ 6
+  | v => !v.dangling
 
 def dedupKeys (ents : List (Scalar × Scalar)) : List (Scalar × Scalar) :=
   ents.foldl (fun acc e => if acc.any (fun x => x.1 == e.1) then acc.map (fun x => if x.1 = e.1 then e else x) else acc ++ [e]) []
@@ -1130,7 +1214,13 @@ def buildBody (cfg : Config) (s : St) (r : Route) (i : Init) : Option Body :=
      | _ => if s.usableArg t then some (.ref t) else none)
   | .box t =>
     (match r with
-     | .stack | .static => none
+     | .static => none
+     | .stack =>
+       -- `$(Box, x)`: the struct is initialised with the pointer as it is (no Box_Assign).  `dealloc` of a stack Box is
+       -- refused with a message that shows the Box and, through Box_Show, what it points to: not a pointer object
+       (match t with
+        | none => some (.box none)
+        | some t => if s.ownable t && s.plainPointee t then some (.box (some t)) else none)
      | .alloc | .allocRaw | .allocRoot => (match t with | none => some (.box none) | some _ => none)   -- zeroed: val = NULL
      | _ =>
        -- Box_New → Box_Assign(self, arg): an argument that is itself a pointer object is dereferenced
@@ -1148,12 +1238,13 @@ def buildBody (cfg : Config) (s : St) (r : Route) (i : Init) : Option Body :=
             else none
           | none => none))
   | .seq k ety vals =>
-    if r.isHeap && !(r == .alloc || r == .allocRaw || r == .allocRoot) && s.tyUsable ety && allFit vals ety then
+    if r.isHeap && !(r == .alloc || r == .allocRaw || r == .allocRoot) && s.tyUsable ety && allFit vals ety &&
+        vals.all (s.storable cfg) then
       some (.seq k ety (vals.map (seqElem cfg s k ety)))
     else none
   | .map k kty vty ents =>
     if r.isHeap && !(r == .alloc || r == .allocRaw || r == .allocRoot) && (kty == .int || kty == .string) && s.tyUsable vty &&
-        ents.all (fun e => e.1.fits kty && e.2.fits vty) then
+        ents.all (fun e => e.1.fits kty && e.2.fits vty && s.storable cfg e.2) then
       some (.map k kty vty ((dedupKeys ents).foldl (fun acc e => insertEnt (mapEntry cfg s k kty vty e.1 e.2) acc) []))
     else none
   | .rtType k size =>
@@ -1215,6 +1306,24 @@ def stepCopy (cfg : Config) (s : St) (id : Nat) (src : Nat) : St × Obs :=
         | none => (s, .skip "unsupported"))
    | none => (s, .bad))
 
+/-- **which freeing calls on a whole live object the histories leave out** (both sides print `skip <why>` and the state is
+    unchanged), and why:
+    * `"misuse"` — a raw release (`dealloc`, `dealloc_raw`, `dealloc_root`, `del_raw`, `destruct`) of an object the collector
+      manages: the registry keeps the pointer and the collector finalises the object a second time (a double free by
+      construction, outside the contract of those functions);
+    * `"misuse"` — `destruct` of a heap object: the block stays allocated with a destructed body, every later release runs
+      the destructor again;
+    * `"misuse"` — any release of a run-time Type object while objects or containers of that type are alive;
+    * `"referenced"` — the release of a heap object that is an item of a live Tuple: the next mark phase dereferences the
+      dangling item (known finding KF-C01-dangling-tuple-item, property C01).
+    Everything else — every freeing operation on every stack, static and embedded object included — is executed. -/
+def St.freeSkip (cfg : Config) (s : St) (f : FreeOp) (id : Nat) (o : Obj) : Option String :=
+  if !f.viaCollector && s.isReg id then some "misuse"
+  else if f == .destruct && o.hdr.alloc == cfg.cHeap then some "misuse"
+  else if s.isTypeInUse id then some "misuse"
+  else if o.hdr.alloc == cfg.cHeap && s.referenced id then some "referenced"
+  else none
+
 def stepFree (cfg : Config) (s : St) (f : FreeOp) (t : Target) : St × Obs :=
   (match s.get t.id with
    | none => (s, .bad)
@@ -1224,13 +1333,12 @@ def stepFree (cfg : Config) (s : St) (f : FreeOp) (t : Target) : St × Obs :=
        if !o.live then
          -- a second `del` of a released object only looks the pointer up in the registry
          (if f.viaCollector && cfg.delViaCollector && !s.isReg id then (s, .did f.name .ok t) else (s, .skip "dead"))
-       else if !f.viaCollector && s.isReg id then (s, .skip "misuse")          -- raw release of a collector-managed object
-       else if f == .destruct && o.hdr.alloc == cfg.cHeap then (s, .skip "misuse")
-       else if s.isTypeInUse id then (s, .skip "misuse")
-       else if o.hdr.alloc == cfg.cHeap && s.referenced id then (s, .skip "referenced")
        else
-         let (s1, out) := freeObj cfg s f id o
-         (s1, .did f.name out t)
+         match s.freeSkip cfg f id o with
+         | some why => (s, .skip why)
+         | none =>
+           let (s1, out) := freeObj cfg s f id o
+           (s1, .did f.name out t)
      | _ =>
        if !o.live then (s, .skip "dead") else
        match s.elemOf t with
@@ -1240,7 +1348,7 @@ def stepFree (cfg : Config) (s : St) (f : FreeOp) (t : Target) : St × Obs :=
          (s.updBody t.id (fun b => b.setElemAt t e1), .did f.name out t))
 
 /-- `ref(box, target)` (Box_Ref): the old pointee is simply dropped -/
-def stepOwn (s : St) (id : Nat) (target : Option Nat) : St × Obs :=
+def stepOwn (cfg : Config) (s : St) (id : Nat) (target : Option Nat) : St × Obs :=
   (match s.get id with
    | none => (s, .bad)
    | some o =>
@@ -1250,7 +1358,8 @@ def stepOwn (s : St) (id : Nat) (target : Option Nat) : St × Obs :=
        (match target with
         | none => (s.updBody id (fun _ => .box none), .did "own" .ok (.obj id))
         | some t =>
-          if s.ownable t then (s.updBody id (fun _ => .box (some t)), .did "own" .ok (.obj id))
+          if s.ownable t && (o.hdr.alloc == cfg.cHeap || s.plainPointee t) then
+            (s.updBody id (fun _ => .box (some t)), .did "own" .ok (.obj id))
           else (s, .skip "unsupported"))
      | _ => (s, .skip "unsupported"))
 
@@ -1299,7 +1408,7 @@ def step (cfg : Config) (s : St) (op : Op) : St × Obs :=
     (match s.viewItems cfg v with
      | some l => (s, .items l)
      | none => (s, .skip "unsupported"))
-  | .own id target => stepOwn s id target
+  | .own id target => stepOwn cfg s id target
   | .sweep victims order =>
     let r := s.sweep cfg victims order
     (r.1, .swept "sweep" r.2.1 r.2.2)
